@@ -757,7 +757,9 @@ Proof.
     destruct (c_in (wc w cid)); [hrq; apply Q_same0; auto|].
     destruct (n <? _); hrq; apply Q_same0; auto. }
   chain_next.
-  { hrq; apply Q_same0; auto. }
+  { (* writeto *)
+    destruct (_ || _); [hrq; apply Q_same0; auto|].
+    destruct (_ <? _); hrq; apply Q_same0; auto. }
   chain_next.
   { hrq. exact HI. }
   chain_next.
